@@ -771,6 +771,7 @@ class E2Meta(ScriptEngine):
             return f"{prefix}{n[0]}"
 
         binds: List[str] = []  # name bindings for P'
+        int_names: List[Tuple[str, int]] = []  # int-valued names of P' and the value they are bound to
         dead: List[str] = []   # dead mutations for P'
 
         def lit(value, kind="int"):
@@ -789,6 +790,8 @@ class E2Meta(ScriptEngine):
                 return text, text
             nm = name()
             binds.append(f"{nm} = {text}")
+            if kind == "int" and isinstance(value, int):
+                int_names.append((nm, value))
             how = r.random()
             if kind == "pin" and live and "pin_name_mutation" in avoid:
                 pass  # a device keeps using the *name* of its pin: re-assigning it later moves the device (known finding)
@@ -902,7 +905,17 @@ class E2Meta(ScriptEngine):
                 out.append(f"show({arg!r})")
                 out.append(f"mon.write(len({gname}))")
             body_loop.append((f"show({(arg + 'z')!r})",) * 2)
-        p_text = head + [a for a, _b in p_lines] + helper_p + [a for a, _b in body_setup]
+        # a top-level name first defined *after* the (dead or live) re-assignments, from a foldable expression over
+        # one of the names: a global initialiser must not be evaluated ahead of the assignments that precede it
+        late_p: List[str] = []
+        late_q: List[str] = []
+        if int_names and r.random() < 0.7:
+            nm, val = r.choice(int_names)
+            c = r.randint(1, 9)
+            form = r.choice(["{} + {}", "{} * 2 + {}", "{} - {}"])
+            late_p = ["late = " + form.format(val, c), "mon.write(late)"]
+            late_q = ["late = " + form.format(nm, c), "mon.write(late)"]
+        p_text = head + [a for a, _b in p_lines] + helper_p + late_p + [a for a, _b in body_setup]
         q_text = head + binds + [b for _a, b in p_lines] + helper_q
         # dead mutations: in a never-taken branch and in a zero-trip loop, placed before and after the uses
         def dead_block(lines):
@@ -926,6 +939,7 @@ class E2Meta(ScriptEngine):
             return out
 
         q_text += dead_block(dead)
+        q_text += late_q
         q_text += [b for _a, b in body_setup]
         if r.random() < 0.5:
             q_text += dead_block(dead)
